@@ -734,7 +734,7 @@ theorem bindNamed_zip (env : Env) (ps : List Param) (vs : List Json)
       have hk : p.name ∉ ((ps.map (·.name)).zip vs).map (·.1) := keys_zip_subset hp
       have ih' := ih vs hnd' (by simpa using hlen) (fun q hq => hopt q (by simpa using hq))
       simp only [List.map_cons, List.zip_cons_cons, bindNamed, mapGet_head hk, mapDelete_head hk, bindPositional]
-      cases env.decode p.ty v with
+      cases decodeParam env p v with
       | none => rfl
       | some a =>
         simp only [ih']
@@ -797,7 +797,7 @@ theorem positional_named (env : Env) (m : Method) (vs : List Json)
 theorem bindPositional_spec (env : Env) (ps : List Param) (vs : List Json) (args : List Json)
     (hlen : vs.length ≤ ps.length) (h : bindPositional env ps vs = .ok args) :
     args.length = ps.length ∧
-    Forall₂ (fun (pv : Param × Json) a => env.decode pv.1.ty pv.2 = some a) (ps.zip vs) (args.take vs.length) ∧
+    Forall₂ (fun (pv : Param × Json) a => decodeParam env pv.1 pv.2 = some a) (ps.zip vs) (args.take vs.length) ∧
     args.drop vs.length = (ps.drop vs.length).map (fun p => env.zero p.ty) := by
   induction ps generalizing vs args with
   | nil =>
@@ -818,7 +818,7 @@ theorem bindPositional_spec (env : Env) (ps : List Param) (vs : List Json) (args
         simpa using h3
     | cons v vs =>
       simp only [bindPositional] at h
-      cases hd : env.decode p.ty v with
+      cases hd : decodeParam env p v with
       | none => simp [hd] at h
       | some a =>
         simp only [hd] at h
@@ -870,7 +870,11 @@ theorem isBatch_iff (cfg : Config) (inp : Input) :
 /-! ### cancellation: handlers may answer differently, the dispatcher does the same -/
 
 /-- two environments that differ at most in what the handlers return -/
-def SameBinding (e1 e2 : Env) : Prop := e1.decode = e2.decode ∧ e1.zero = e2.zero
+def SameBinding (e1 e2 : Env) : Prop := e1.decode = e2.decode ∧ e1.zero = e2.zero ∧ e1.nullNotGiven = e2.nullNotGiven
+
+theorem decodeParam_congr {e1 e2 : Env} (h : SameBinding e1 e2) (p : Param) (v : Json) :
+    decodeParam e1 p v = decodeParam e2 p v := by
+  simp only [decodeParam, h.1, h.2.1, h.2.2]
 
 theorem bindPositional_congr {e1 e2 : Env} (h : SameBinding e1 e2) (ps : List Param) (vs : List Json) :
     bindPositional e1 ps vs = bindPositional e2 ps vs := by
@@ -878,20 +882,20 @@ theorem bindPositional_congr {e1 e2 : Env} (h : SameBinding e1 e2) (ps : List Pa
   | nil => cases vs <;> rfl
   | cons p ps ih =>
     cases vs with
-    | nil => simp only [bindPositional, ih, h.2]
-    | cons v vs => simp only [bindPositional, ih, h.1]
+    | nil => simp only [bindPositional, ih, h.2.1]
+    | cons v vs => simp only [bindPositional, ih, decodeParam_congr h]
 
 theorem bindNamed_congr {e1 e2 : Env} (h : SameBinding e1 e2) (ps : List Param) (m : List (String × Json)) :
     bindNamed e1 ps m = bindNamed e2 ps m := by
   induction ps generalizing m with
   | nil => rfl
-  | cons p ps ih => simp only [bindNamed, ih, h.1, h.2]
+  | cons p ps ih => simp only [bindNamed, ih, decodeParam_congr h, h.2.1]
 
 theorem stageOf_congr {e1 e2 : Env} (h : SameBinding e1 e2) (tbl : Table) (j : Json) :
     stageOf e1 tbl j = stageOf e2 tbl j := by
   have hb : ∀ params m, buildArguments e1 params m = buildArguments e2 params m := by
     intro params m
-    simp only [buildArguments, bindPositional_congr h, bindNamed_congr h, h.2]
+    simp only [buildArguments, bindPositional_congr h, bindNamed_congr h, h.2.1]
   simp only [stageOf, hb]
 
 /-- whether a request value is answered, with which id, and which handler call it causes does not
